@@ -647,9 +647,9 @@ Lemma insert_mid : forall {A} (x : Z * A) s1 s2,
 Proof.
   intros A x s1 s2 H1 H2. induction s1 as [|y s1 IH]; cbn [app].
   - destruct s2 as [|y s2]; [reflexivity|]. cbn [insert_by].
-    pose proof (H2 y (or_introl eq_refl)) as L. destruct (fst y <=? fst x) eqn:E; [apply Z.leb_le in E; lia | reflexivity].
+    pose proof (H2 y (or_introl eq_refl)) as L. destruct (fst y <? fst x) eqn:E; [apply Z.ltb_lt in E; lia | reflexivity].
   - cbn [insert_by]. pose proof (H1 y (or_introl eq_refl)) as L.
-    destruct (fst y <=? fst x) eqn:E; [|apply Z.leb_gt in E; lia].
+    destruct (fst y <? fst x) eqn:E; [|apply Z.ltb_ge in E; lia].
     rewrite IH; [reflexivity|]. intros z Hz. apply H1. right. exact Hz.
 Qed.
 
@@ -717,7 +717,7 @@ Lemma populate_dict : forall ord kvs vals,
   populate (EDict ord (map fst kvs)) vals = Some (ODict ord kvs).
 Proof.
   intros ord kvs vals SF KD Hp. cbn [populate]. rewrite (fromkeys_id _ KD).
-  cbv zeta. match goal with |- context [assoc_str _ ?d] => remember d as dec eqn:Edec end.
+  cbv zeta. match goal with |- context [assoc_str _ (rev ?d)] => remember d as dec eqn:Edec end.
   assert (ND : NoDup (map fst dec)).
   { rewrite Edec. rewrite map_map. cbn [fst].
     apply (Permutation_NoDup (l := map (fun tv : token * obj => decode (fst tv)) (kids (ODict ord kvs)))).
@@ -726,8 +726,8 @@ Proof.
       replace (map (fun x : key * obj => decode (encode (key_str (fst x)))) kvs) with (map key_str (map fst kvs)).
       + apply should_flatten_spec in SF. tauto.
       + rewrite map_map. apply map_ext. intro a. rewrite decode_encode. reflexivity. }
-  assert (L : forall k v, In (k, v) kvs -> assoc_str (key_str k) dec = Some v).
-  { intros k v Hin. apply assoc_str_in; [exact ND|]. rewrite Edec. apply in_map_iff.
+  assert (L : forall k v, In (k, v) kvs -> assoc_str (key_str k) (rev dec) = Some v).
+  { intros k v Hin. apply assoc_str_in; [rewrite map_rev; apply NoDup_rev; exact ND|]. apply -> in_rev. rewrite Edec. apply in_map_iff.
     exists (key_token k, v). cbn [fst snd]. unfold key_token at 1. rewrite decode_encode. split; [reflexivity|].
     apply (Permutation_in _ (Permutation_sym Hp)). cbn [kids]. apply in_map_iff. exists (k, v). auto. }
   f_equal. f_equal. clear -L. induction kvs as [|[k v] kvs IH]; [reflexivity|].
@@ -858,6 +858,14 @@ Proof.
   apply negb_false_iff in L. cbn [hgt]. rewrite L. lia.
 Qed.
 
+Lemma init_container_empty : forall o, is_leaflike o = false -> kids o = [] -> init_container (entry_of o) = o.
+Proof.
+  intros o L K. destruct o as [l|xs|ord kvs]; cbn [is_leaflike] in L.
+  - discriminate.
+  - cbn [kids] in K. destruct xs as [|x xs]; [reflexivity|]. cbn in K. discriminate.
+  - cbn [kids] in K. destruct kvs as [|kv kvs]; [reflexivity | discriminate].
+Qed.
+
 Theorem build_correct : forall o, wf_obj o -> is_leaflike o = false ->
   forall P m lm fuel, NoDup (map fst m) -> NoDup (map fst lm) -> agree_m m o P -> agree_l lm o P ->
   (hgt o <= fuel)%nat -> build fuel m lm P (entry_of o) = Some o.
@@ -877,7 +885,11 @@ Proof.
                (agree_m_kid m o P t c L Hk Am) (agree_l_kid lm o P t c L Hk Al)).
     - cbn [option_map]. rewrite (G t _ c Hk). reflexivity.
     - pose proof (hgt_kids o t c L Hk). lia. }
-  rewrite M. apply populate_kids; [exact W | exact L |].
+  rewrite M.
+  assert (PERM : Permutation (map g (children m P) ++ children lm P) (kids o)); [|
+    destruct (map g (children m P) ++ children lm P) as [|v0 vals] eqn:EV;
+    [ apply Permutation_nil in PERM; rewrite (init_container_empty o L PERM); reflexivity
+    | apply populate_kids; [exact W | exact L | exact PERM] ] ].
   assert (C1 : forall t c, In (t, c) (map g (children m P)) -> In (t, c) (kids o) /\ is_leaflike c = false).
   { intros t c Hin. apply in_map_iff in Hin. destruct Hin as [[t' e] [E Hin]].
     destruct (child_m_inv m o P t' e L Am Hin) as [c' [Hk [Lc _]]]. rewrite (G t' e c' Hk) in E.
